@@ -56,6 +56,15 @@ func genProtoPlan(r *rand.Rand, hours bool) *plan.Plan {
 			for k, v := range ev.Fields {
 				doc[k] = v
 			}
+			if proto == "es_bulk" && r.IntN(5) == 0 {
+				// a Jaeger span document (index jaeger-*): its time is carried in startTimeMillis, there is no
+				// `timestamp` field
+				ev.Carried = true
+				ev.Unit = "jaeger-startTimeMillis"
+				doc["startTimeMillis"] = ev.TMs
+				doc["_sim_index"] = "jaeger-span-2021-01-01"
+				return ev, doc
+			}
 			if ev.Carried {
 				switch r.IntN(3) {
 				case 0:
@@ -111,8 +120,15 @@ func genProtoPlan(r *rand.Rand, hours bool) *plan.Plan {
 		case "es_bulk":
 			var sb strings.Builder
 			for _, pc := range pieces {
+				index := "p16"
+				if m, ok := pc.(map[string]any); ok {
+					if ix, ok := m["_sim_index"].(string); ok {
+						index = ix
+						delete(m, "_sim_index")
+					}
+				}
 				db, _ := json.Marshal(pc)
-				sb.WriteString(`{"index":{"_index":"p16"}}` + "\n" + string(db) + "\n")
+				sb.WriteString(`{"index":{"_index":"` + index + `"}}` + "\n" + string(db) + "\n")
 			}
 			op = plan.Op{Kind: "http", Body: sb.String(), Args: map[string]any{"server": "ingest", "method": "POST", "path": "/elastic/_bulk"}}
 		case "es_doc":
@@ -272,7 +288,7 @@ func init() {
 		// "accepted, so it is stored and found" is judged after the plan's final flush and clock advances
 		Pinned: func(op *plan.Op) bool { return op.Kind == "flush" || op.Kind == "advance" },
 		Level: "exploration",
-		Rule: "each case moves the fake clock to a seeded instant and delivers 4-13 logical events (string fields, a number, a message; with a carried time in one of the accepted units, or none) through the real HTTP routes of Elasticsearch bulk, Elasticsearch single-document, Splunk HEC and Loki push (JSON), with think times, under the seeded scheduler; then the clock jumps 3-4 min before the flush and 2-3 min before the query (hours instead of minutes in one thorough run in twenty). Oracle: every accepted event is stored once with its fields and message under the protocol's documented mapping; stored time == carried time; == the simulated arrival instant iff none was carried. distinct = distinct (protocol, unit, carried) sequences; non-trivial = the run contains events with and without a carried time",
+		Rule: "each case moves the fake clock to a seeded instant and delivers 4-13 logical events (string fields, a number, a message; with a carried time in one of the accepted units, or none) through the real HTTP routes of Elasticsearch bulk (also Jaeger span documents into a jaeger-* index, time in startTimeMillis), Elasticsearch single-document, Splunk HEC and Loki push (JSON), with think times, under the seeded scheduler; then the clock jumps 3-4 min before the flush and 2-3 min before the query (hours instead of minutes in one thorough run in twenty). Oracle: every accepted event is stored once with its fields and message under the protocol's documented mapping; stored time == carried time; == the simulated arrival instant iff none was carried. distinct = distinct (protocol, unit, carried) sequences; non-trivial = the run contains events with and without a carried time",
 		Run: func(c *Ctx) {
 			n := 80
 			if !c.Quick() {
